@@ -38,6 +38,13 @@ var denylist = map[string]string{
 	"net:get-host-by-address": "DNS lookup",
 	"net:graphql-query":       "HTTP request",
 	"net:socket-make-stream":  "network side effect",
+	// the REPL package (linked as in the slip command)
+	"repl:repl":          "starts the interactive read-eval-print loop on the terminal/stdin",
+	"repl:edit-stash":    "runs the external $EDITOR on the stash file",
+	"repl:quit":          "ends the REPL (exit)",
+	"repl:use-stash":     "creates and rewrites stash files under the configuration directory",
+	"repl:clear-history": "rewrites the persistent history file under the configuration directory",
+	"repl:clear-stash":   "rewrites the persistent stash file under the configuration directory",
 	// swank (SLIME) servers listen on TCP ports
 	"swank:create-server":  "starts a TCP server",
 	"swank:restart-server": "starts a TCP server",
@@ -56,11 +63,11 @@ type target struct {
 	// Raw: arguments at positions the function does not evaluate are passed
 	// as the bare object (special forms and macros); otherwise every argument
 	// is wrapped in (quote ...).
-	Raw    bool
-	minReq int      // documented number of required arguments
-	maxArgs int     // documented maximum number of arguments, -1 = unlimited
-	keys   []string // documented &key names
-	skips  bool     // the function skips evaluation of at least one argument
+	Raw     bool
+	minReq  int      // documented number of required arguments
+	maxArgs int      // documented maximum number of arguments, -1 = unlimited
+	keys    []string // documented &key names
+	skips   bool     // the function skips evaluation of at least one argument
 }
 
 var (
